@@ -290,6 +290,22 @@ func probeCases() []probeCase {
 			}
 			return false, fmt.Sprint(fs)
 		}},
+		{key: "subs:status:accepted-on-l1-missed:l1-head-event-handled-before-database-write", versions: []int{9, 10}, run: func(p *probe) (bool, string) {
+			p.store(1)
+			p.sendAll()
+			p.subscribe(1, action{Kind: "status", Tx: p.tx}, nil)
+			fs := p.drain(1) // ACCEPTED_ON_L2
+			p.r.gatedL1 = true
+			p.do(action{Name: "SetL1", N: 3}) // SetL1Head: the event is on the feed, the database not yet written: the subscriber handles it now
+			p.do(action{Name: "L1Write"})
+			fs = append(fs, p.drain(1)...)
+			for _, f := range fs {
+				if f.K == "status" && f.A == finL1 {
+					return false, fmt.Sprint(fs)
+				}
+			}
+			return true, fmt.Sprintf("frames %v: the transaction's block is at the L1 head, the L1-head event was handled, ACCEPTED_ON_L1 was not reported (and will not be before the NEXT L1 head)", fs)
+		}},
 		{key: "subs:status:stale-after-reorg", versions: []int{9, 10}, run: func(p *probe) (bool, string) {
 			t := p.store(1)
 			_ = t
